@@ -41,6 +41,6 @@ Example C14_example :
   let ops := [PNew [(qz 1, 1); (qz 3, 1); (qz 2, 1)] false; PFill 0 (qz 6) (qz 2); PNew [(qz 0, qz 4)] true; PAdd 0 1; PMul 2 (qz 2); PSub 2 0] in
   wf_c14 (Build_c14 ops 0) = true /\
   check_C14 (Build_c14 ops 0) (e_list e_stats_obs (srun [] ops)) = true /\
-  map st_median (srun [] ops) = [Fin (qz 2); NaN; Fin 0; NaN; NaN; NaN] /\
-  map st_mean (srun [] ops) = [Fin (qz 2); Fin (mkq 18 5); Fin 0; Fin (qz 2); Fin (qz 2); NaN].
+  all2 xeqb (map st_median (srun [] ops)) [Fin (qz 2); NaN; Fin 0; NaN; NaN; NaN] = true /\
+  all2 xeqb (map st_mean (srun [] ops)) [Fin (qz 2); Fin (mkq 18 5); Fin 0; Fin (qz 2); Fin (qz 2); NaN] = true.
 Proof. vm_compute. repeat split; reflexivity. Qed.
